@@ -525,6 +525,10 @@ pub fn run_reader_t<T: Spec>(s: &ReaderSetup) -> RTrace {
                 let is_err = matches!(ev, Ev::Err(_));
                 let is_none = matches!(ev, Ev::None);
                 push!(ev);
+                if is_none && !it.get_ref().ended {
+                    // a temporary end of the source: the caller polls on
+                    continue;
+                }
                 if is_none {
                     if extra_left == 0 {
                         break;
